@@ -550,6 +550,42 @@ def r5_sav_keys(ctx, rule, sections=None, floor=10):
                'round-tripping types' % nreads, {'written': sorted('%s.%s' % k for k in written)})
 
 
+def r11_restore_is_verbatim(ctx, rule):
+    """load_save copies rule name and flags from the save file unconditionally and never edits the loaded config."""
+    fn = ctx.fn(LOAD_SAVE)
+    mod = ctx.repo.modules['pcfg_guesser.py']
+    ps = params(fn)
+    pin = ps[1]
+    ok = True
+    seen = {}
+    for st in walk_stmts(fn.body):
+        if isinstance(st, ast.Assign) and isinstance(st.targets[0], ast.Subscript) and U(st.targets[0].value) == pin \
+                and const(st.targets[0].slice) in ('rule_name', 'skip_brute', 'skip_case'):
+            k = const(st.targets[0].slice)
+            conds = [(U(t), p) for t, p in path_conditions(mod, st) if 'has_option' not in U(t)]
+            seen[k] = (U(st.value), conds)
+            if conds:
+                ok = False
+                ctx.bad(rule, LOAD_SAVE, "program_info['%s'] restored only under %s" % (k, conds),
+                        'a resumed session must use the grammar of the saved session', None, st)
+            if 'save_config.get' not in U(st.value):
+                ok = False
+                ctx.bad(rule, LOAD_SAVE, "program_info['%s'] = %s" % (k, U(st.value)[:50]), 'the value must come from the save file', None, st)
+    for c in calls_in(fn):
+        if isinstance(c.func, ast.Attribute) and c.func.attr in ('set', 'remove_option', 'remove_section', 'add_section') and 'save_config' in U(c.func.value):
+            ok = False
+            ctx.bad(rule, LOAD_SAVE, 'load_save edits the loaded config: ' + U(c)[:70],
+                    'the flags of a saved session are part of its identity: the saved max_probability only makes sense for the '
+                    'grammar (skip_brute / skip_case / rule) it was computed with; letting the command line override them on '
+                    '--load resumes the position in a different grammar', None, c)
+    if set(seen) != {'rule_name', 'skip_brute', 'skip_case'}:
+        ok = False
+        ctx.bad(rule, LOAD_SAVE, 'restored keys %s' % sorted(seen), 'rule_name, skip_brute and skip_case must be restored', None, fn)
+    if ok:
+        ctx.ok(rule, LOAD_SAVE, 'rule_name / skip_brute / skip_case are copied from the save file unconditionally; the loaded config is not edited',
+               {'restored': {k: v[0] for k, v in seen.items()}})
+
+
 def r9_restore_depth(ctx, rule):
     """The restore walk is recursive; its depth is the number of +1 steps from the root to the frontier."""
     q = PG + 'restore_prob_order'
@@ -594,7 +630,7 @@ def _exact_float(ctx, rule):
 def rules(tier):
     return [('C08.R1', r1_uuid_gate), ('C08.R2', r2_region_agreement), ('C08.R3', r3_canonical_descent),
             ('C08.R4', r4_saved_position), ('C08.R5', r5_sav_keys), ('C08.R6', c01.r5_successor),
-            ('C08.R7', c01.r4_prob_pt_coupling), ('C08.R8', c01.r1_heap_order), ('C08.R9', r9_restore_depth),
+            ('C08.R7', c01.r4_prob_pt_coupling), ('C08.R8', c01.r1_heap_order), ('C08.R9', r9_restore_depth), ('C08.R11', r11_restore_is_verbatim),
             ('C08.R10', _exact_float)]
 
 
